@@ -41,7 +41,7 @@ class C04(fw.Prop):
             "sendable kind (AARQ both from get_aarq() and built by the caller with a plain InitiateRequest) with payload lengths 0..300 and around 64 KiB (sends refused by the state machine must emit nothing), incoming plain APDUs of "
             "every kind in every state; each step compared with the model; in addition the harness, holding the keys, parses every output, checks title, "
             "security control, counter, decrypts and compares with the plain encoding, and searches the raw output for the plain encoding; "
-            "sessions under negotiated conformances 0 / all-ones / random with request field variants, the dedicated-ciphering option, a dedicated key announced in a caller-built AARQ; what was sent is opened with an AES-GCM written independently of the library (harness/refcrypto.py); non-trivial = distinct history")
+            "sessions under negotiated conformances 0 / all-ones / random with request field variants, the dedicated-ciphering option, a dedicated key announced in a caller-built AARQ; what was sent is opened with an AES-GCM written independently of the library (harness/refcrypto.py); unprotected encodings placed inside general-glo envelopes claiming no / partial / full protection; every ciphered-content length 95..125 (80..150 thorough); non-trivial = distinct history")
     trusted_base = ["the symbolic-cryptography abstraction (DESIGN.md §5b)", "C01 for the framing of general-glo-ciphering with content >= 128 bytes"]
     assumptions = ["the connection is configured with both keys, of the length the suite demands, and an 8-byte system title"]
     technique = "Lean 4 proof over the model of send/protect/encrypt/unprotect with symbolic sealing (output = general-glo(seal(plain)) in every state; plain answers refused) + differential correspondence + decrypt-and-compare oracle on the implementation"
